@@ -227,6 +227,7 @@ fn apply_edit(sh: &mut Shared, op: &Op, log: &mut Vec<String>) -> bool {
             m.recs.clear();
             m.ever_logged.clear();
             m.log_torn_ever = false;
+            m.orphan_cut = None;
             sh.stats.bump("fault.log_deleted");
             log.push("delete .n2_db".into());
         }
@@ -718,7 +719,7 @@ fn check_invocation(
                     let code = if unknown.iter().all(|u| sh.model.ever_logged.contains(u)) { "log-only-name-accepted" } else { "unknown-target-accepted" };
                     v.push(viol("C18", code, format!("exit status 0 although {:?} occurs nowhere in the manifest", unknown)));
                 }
-                if miss {
+                if miss && !spec.restat {
                     v.push(viol("C05", "exit0-missing-source", "exit status 0 although a needed step has a missing input no step produces".into()));
                 }
                 for &si in &nopool_steps {
@@ -746,7 +747,7 @@ fn check_invocation(
                             continue;
                         }
                         for o in &s.outs {
-                            if sh.model.depends_on_taint(&p2, o, &mut BTreeSet::new()) {
+                            if sh.model.content_unknown || sh.model.depends_on_taint(&p2, o, &mut BTreeSet::new()) {
                                 continue;
                             }
                             let want = p2.clean(o, &mut memo);
@@ -917,6 +918,8 @@ pub fn run_scenario(sc: &Scenario, sandbox: &Sandbox, verbose: bool) -> RunResul
         taint: BTreeSet::new(),
         ever_logged: BTreeSet::new(),
         log_torn_ever: false,
+        orphan_cut: None,
+        content_unknown: false,
     };
     for i in 0..model.disk.srcs.len() {
         if model.disk.srcs[i].exists {
@@ -995,6 +998,11 @@ pub fn run_scenario(sc: &Scenario, sandbox: &Sandbox, verbose: bool) -> RunResul
                     let len = disk::file_len(&s.model.disk.db_path()).unwrap_or(0);
                     s.model.cut_log(len);
                     s.model.log_torn_ever = true;
+                    if spec.restat && s.orphan.is_some() {
+                        // an adoption record of unknown owner may be in the log
+                        s.model.orphan_cut = Some(s.model.recs.len());
+                        s.model.content_unknown = true;
+                    }
                 }
                 // C18: the log lives at <builddir>/.n2_db and nowhere else
                 {
